@@ -41,7 +41,7 @@ try:
         t = subprocess.run(["/venv/bin/python", "-m", "pytest", "-q", "-p", "no:cacheprovider", "--no-cov"], cwd=W,
                            capture_output=True, text=True)
         meta["repository_suite_with_patch"] = t.stdout.strip().splitlines()[-1]
-        env = dict(os.environ, TWVERIF_REPO=W)
+        env = dict(os.environ, TWVERIF_REPO=W, TWVERIF_NO_EVIDENCE="1")
         caught = {}
         for cid in [ID] + extra:
             for tier in ("quick", "thorough"):
